@@ -323,6 +323,14 @@ def generate(rng, k, tier="quick"):
     if pop:
         b, c, kk = pop[-1]
         ops.append({"op": "CHECK_NEAR", "a": b, "b": c})
+    # who runs: some setters and checks are executed in a helper thread or in a copied context
+    for op in ops:
+        if op["op"] in ("SET_EPS", "SET_SIG", "CHECK_GETTERS", "CHECK_NEAR", "CHECK_FAR"):
+            x = rng.random()
+            if x < 0.08:
+                op["ctx"] = "thread"
+            elif x < 0.13:
+                op["ctx"] = "context"
     return {"property": NAME, "ops": ops, "subject_type": typ}
 
 
@@ -344,6 +352,36 @@ class Ctx(object):
         self.count("alarms")
         if len(self.violations) < 40:
             self.violations.append({"step": step, "inv": inv, "sig": sig, "query": query, "shape": shape, "info": info, "side": "world", "probe_type": None})
+
+
+def run_in(where, fn):
+    """execute fn() on the main thread (None), in a helper thread started now and
+    joined at once ("thread"), or inside a copy of the current context as asyncio
+    tasks do ("context"). Execution stays strictly sequential - the point is WHO runs:
+    the tolerance is process-global configuration (the property's own wording), so a
+    setter called anywhere must be seen everywhere afterwards."""
+    if where == "thread":
+        import threading
+
+        box = {}
+
+        def target():
+            try:
+                box["r"] = fn()
+            except BaseException as e:  # re-raised on the main thread
+                box["e"] = e
+
+        t = threading.Thread(target=target)
+        t.start()
+        t.join()
+        if "e" in box:
+            raise box["e"]
+        return box.get("r")
+    if where == "context":
+        import contextvars
+
+        return contextvars.copy_context().run(fn)
+    return fn()
 
 
 class Model(object):
@@ -606,15 +644,18 @@ def execute(history, opts=None):
         for step, op in enumerate(ops, 1):
             kind = op["op"]
             ctx.count("op:" + kind)
+            where = op.get("ctx")
+            if where:
+                ctx.count("executed_in:" + where)
             if kind in ("SET_EPS", "SET_SIG"):
                 j = op["j"]
                 if kind == "SET_EPS":
                     M.set_eps(j)
-                    r = call(G.set_eps) if j is None else call(G.set_eps, M.eps_float)
+                    r = run_in(where, lambda: call(G.set_eps) if j is None else call(G.set_eps, M.eps_float))
                     ctx.count("setter:set_eps" + ("()" if j is None else ("(nonpower)" if isinstance(j, str) else "")))
                 else:
                     M.set_sig(j)
-                    r = call(G.set_sig_figures) if j is None else call(G.set_sig_figures, j)
+                    r = run_in(where, lambda: call(G.set_sig_figures) if j is None else call(G.set_sig_figures, j))
                     ctx.count("setter:set_sig_figures" + ("()" if j is None else ""))
                 ctx.count("config:j=%s" % (M.sig if M.power else "nonpower"))
                 if isinstance(r, Raised):
@@ -622,7 +663,7 @@ def execute(history, opts=None):
                 _getters(ctx, step, G, M)
                 ctx.event(step, kind, str(j))
             elif kind == "CHECK_GETTERS":
-                _getters(ctx, step, G, M)
+                run_in(where, lambda: _getters(ctx, step, G, M))
                 ctx.event(step, kind, "ok")
             elif kind == "BUILD":
                 if "spec" in op:
@@ -679,9 +720,9 @@ def execute(history, opts=None):
                 if a is None or b is None or b.get("stale_pair"):
                     ctx.event(step, kind, "noop")
                     continue
-                _check_near(ctx, step, M, a, b)
+                run_in(where, lambda: _check_near(ctx, step, M, a, b))
             elif kind == "CHECK_FAR":
-                _check_far(ctx, step, G, M, op)
+                run_in(where, lambda: _check_far(ctx, step, G, M, op))
             elif kind == "BUILD_BIG":
                 L = float(2 ** op["log2"])
                 o = G.Point(*[float(F(x)) for x in op["o"]])
